@@ -3,6 +3,7 @@ CONSTANTS
   IMMS <- T_IMMS
   CELLVALS <- T_CELLVALS
   LAYOUTS <- T_LAYOUTS
+  BLAKE_OFFS <- B_T
   BUG = "none"
 INIT Init
 NEXT Next
